@@ -475,6 +475,9 @@ class BusCookieAuthenticator :
 
             os.rename(self.lock_file, self.cookie_file)
 
+        # the cookie is gone: a later cancel() must not delete it again
+        self.cookieId = None
+
 
 @implementer(IBusAuthenticationMechanism)
 class BusExternalAuthenticator :
